@@ -65,6 +65,7 @@ type Lexer struct {
 	err error
 
 	inTag bool
+	inPI  bool // in a processing instruction only "?>" ends the tag
 
 	text    []byte
 	attrVal []byte
@@ -113,11 +114,12 @@ func (l *Lexer) Next() (TokenType, []byte) {
 				l.err = parse.NewErrorLexer(l.r, "unexpected NULL character")
 			}
 			return ErrorToken, nil
-		} else if c != '>' && (c != '/' && c != '?' || l.r.Peek(1) != '>') {
+		} else if c != '>' && (c != '/' && c != '?' || l.r.Peek(1) != '>') || l.inPI && (c != '?' || l.r.Peek(1) != '>') {
 			return AttributeToken, l.shiftAttribute()
 		}
 		l.r.Skip()
 		l.inTag = false
+		l.inPI = false
 		if c == '/' {
 			l.r.Move(2)
 			return StartTagCloseVoidToken, l.r.Shift()
@@ -157,6 +159,7 @@ func (l *Lexer) Next() (TokenType, []byte) {
 			} else if c == '?' {
 				l.r.Move(2)
 				l.inTag = true
+				l.inPI = true
 				return StartTagPIToken, l.shiftStartTag()
 			}
 			l.r.Move(1)
@@ -259,7 +262,7 @@ func (l *Lexer) shiftAttribute() []byte {
 	nameStart := l.r.Pos()
 	var c byte
 	for { // attribute name state
-		if c = l.r.Peek(0); c == ' ' || c == '=' || c == '>' || (c == '/' || c == '?') && l.r.Peek(1) == '>' || c == '\t' || c == '\n' || c == '\r' || c == 0 {
+		if c = l.r.Peek(0); c == ' ' || c == '=' || c == '>' && !l.inPI || (c == '/' && !l.inPI || c == '?') && l.r.Peek(1) == '>' || c == '\t' || c == '\n' || c == '\r' || c == 0 {
 			break
 		}
 		l.r.Move(1)
@@ -290,7 +293,7 @@ func (l *Lexer) shiftAttribute() []byte {
 				if c == delim {
 					l.r.Move(1)
 					break
-				} else if c == 0 {
+				} else if c == 0 || l.inPI && c == '?' && l.r.Peek(1) == '>' {
 					break
 				}
 				l.r.Move(1)
@@ -300,7 +303,7 @@ func (l *Lexer) shiftAttribute() []byte {
 			}
 		} else { // attribute value unquoted state
 			for {
-				if c = l.r.Peek(0); c == ' ' || c == '>' || (c == '/' || c == '?') && l.r.Peek(1) == '>' || c == '\t' || c == '\n' || c == '\r' || c == 0 {
+				if c = l.r.Peek(0); c == ' ' || c == '>' && !l.inPI || (c == '/' && !l.inPI || c == '?') && l.r.Peek(1) == '>' || c == '\t' || c == '\n' || c == '\r' || c == 0 {
 					break
 				}
 				l.r.Move(1)
